@@ -10,19 +10,32 @@ def SharedPersistentPrefixes : List String := ["tunnox:client_mappings:", "tunno
 end hybrid.DefaultConfig
 
 namespace Skel
+def BaseAdapter_cleanupConnection : List String := ["session.CloseConnection", "closer.Close"]
+def BaseAdapter_handleConnection : List String := ["b.cleanupConnection", "b.initializeConnection", "b.connectionReadLoop"]
+def ClientRegistry_CleanupStale : List String := ["mu.Lock", "IsStale", "unindexLocked", "delete", "mu.Unlock", "closeFn", "stream.Close"]
+def ClientRegistry_Close : List String := ["mu.Lock", "mu.Unlock", "Stream.Close"]
+def ClientRegistry_KickOldConnection : List String := ["mu.Lock", "unindexLocked", "delete", "mu.Unlock", "sendKickFn", "stream.Close"]
 def CloseConnection : List String := ["delete", "RemoveControlConnection", "RemoveTunnelConnection", "connStateStore.UnregisterConnection"]
 def CreateConnection : List String := ["streamMgr.CreateStream", "connLock.Lock", "connLock.Unlock", "connLock.Unlock"]
+def FindClientNode_storage : List String := ["storage.Get", "GetConnectionState"]
+def GetConnectionState_storage : List String := ["storage.Get", "storage.Delete"]
 def HandlersComponent_Initialize : List String := ["session.NewConnectionStateStore", "SessionMgr.SetConnectionStateStore", "session.NewCrossNodePool", "SessionMgr.SetCrossNodePool"]
 def Hybrid_Get : List String := ["h.getCategory", "h.getCacheForKey", "cache.Get", "h.getSharedPersistent", "cache.Get", "h.persistent.Get"]
 def Hybrid_getCacheForKey : List String := ["h.isShared"]
 def Hybrid_getCategory : List String := ["h.isSharedPersistent", "h.isShared", "h.isPersistent"]
 def Hybrid_setShared : List String := ["h.getCacheForKey", "cache.Set"]
+def KickOldControlConnection : List String := ["clientRegistry.KickOldConnection"]
 def RemoveControlConnection : List String := ["clientRegistry.GetByConnID", "clientRegistry.Remove"]
 def SendCommandToClient : List String := ["GetControlConnectionByClientID", "sendCommandLocal", "sendCommandCrossNode"]
 def SendHTTPProxyRequest : List String := ["GetControlConnectionByClientID", "sendHTTPProxyRequestLocal", "connStateStore.FindClientNode", "sendHTTPProxyRequestCrossNode"]
+def SessionManager_onClose : List String := ["clientRegistry.Close", "tunnelRegistry.Close", "connLock.Lock", "connLock.Unlock"]
 def StreamManager_CreateStream : List String := ["mu.Lock", "mu.Unlock", "factory.NewStreamProcessor"]
 def UpdateAuth : List String := ["mu.Lock", "mu.Unlock", "unindexLocked"]
+def WebSocketModule_handleConnection : List String := ["session.CloseConnection", "wsConn.Close"]
+def cleanupStaleConnections : List String := ["clientRegistry.CleanupStale", "cloudControl.DisconnectClientIfMatch", "CloseConnection"]
+def clientIndexPointsTo_storage : List String := ["storage.Get"]
 def handleDNSQueryCrossNode : List String := ["connStateStore.FindClientNode", "crossNodePool.Get", "WriteFrame", "ReadFrame"]
+def handleDisconnectCommand : List String := ["clientRegistry.GetByConnID", "CloseConnection"]
 def handleHandshake : List String := ["RegisterControlConnection", "RegisterControlConnection", "authHandler.HandleHandshake", "sendHandshakeResponse", "clientRegistry.DropStaleIndex", "sendHandshakeResponse", "clientRegistry.GetByClientID", "connStateStore.UnregisterConnection", "clientRegistry.Remove", "clientRegistry.UpdateAuth", "connStateStore.RegisterConnection"]
 def handleHeartbeat : List String := ["clientRegistry.GetByConnID", "controlConn.UpdateActivity", "connStateStore.RefreshConnection"]
 def removeConnectionLocked : List String := ["Stream.Close", "unindexLocked", "delete"]
